@@ -20,7 +20,7 @@ OPS = ("rfft", "ifft", "parseval", "fftconvolve", "correlate", "mspec")
 
 
 def REQUIRED(tier):
-    return [f"op:{o}" for o in OPS] + ["len:odd_good_size", "len:prime", "len:power_of_two", "direct_dft_checks", "op:rfft_after_longer", "class:max_zero", "input_unchanged_checks"]
+    return [f"op:{o}" for o in OPS] + ["len:odd_good_size", "len:prime", "len:power_of_two", "direct_dft_checks", "op:rfft_after_longer", "class:max_zero", "input_unchanged_checks", "regime:second_operand_longer"]
 
 
 def EXHAUSTIVE(tier):
@@ -160,7 +160,8 @@ def run_case(case, ctx):
             except Exception as exc:  # noqa: BLE001
                 ctx.violation(f"ifft-raised[{lab}]:{type(exc).__name__}@{exc_site(exc)}", f"n={n} L={L}: {fmt_exc(exc)}", one)
             # ---------------- convolution / correlation
-            ms_ = sorted({1, 2, 3, max(1, n // 2), n}) if not case.get("big") else [int(rng.integers(1, 200))]
+            # kernel lengths from 1 up to and beyond the data length (the second operand may be the longer one)
+            ms_ = sorted({1, 2, 3, max(1, n // 2), n, n + 1, 2 * n + 3}) if not case.get("big") else [int(rng.integers(1, 200))]
             for m in ms_:
                 k = rng.normal(size=m).astype(np.float32) if cls != "impulse" else np.eye(1, m, m - 1, dtype=np.float32).ravel()
                 if cls == "max_zero" and m % 2:
@@ -168,6 +169,8 @@ def run_case(case, ctx):
                 k64 = k.astype(np.float64)
                 kkeep = k.copy()
                 onem = dict(one, m=m)
+                if m > n:
+                    ctx.count("regime:second_operand_longer")
                 ctx.evaluated(); ctx.count("op:fftconvolve")
                 try:
                     cv = np.asarray(kernels.fftconvolve(x, k), dtype=np.float64)
